@@ -449,6 +449,8 @@ class Effects:
                     if ty[0] == 'global' and ty[1] in repo.classes:
                         classes += repo.subclasses(repo.classes[ty[1]])
         if not classes:
+            classes = self._declared_element_classes(recv, fn)
+        if not classes:
             # class-hierarchy analysis on the method name
             classes = [c2 for c2 in repo.classes.values() if name in c2.methods]
         seen = set()
@@ -463,6 +465,39 @@ class Effects:
                 if len(params) - ndef <= npos + len(t[3]) <= len(params) or m.node.args.vararg:
                     out.append((m, 'static' if m.kind == 'static' else 'method'))
         return out
+
+    def _declared_element_classes(self, recv: Term, fn: FunctionInfo) -> List[ClassInfo]:
+        """Receiver = (component of) an element of ``self.<helper>()`` whose return annotation
+        declares the element type (``Iterator[Tuple[str, MPSModule]]``): the declared class and
+        its subclasses.  Keeps the narrowing of an ``isinstance`` filter that was moved into a
+        generator helper."""
+        repo = self.repo
+        t, k = recv, None
+        if t[0] == 'sub' and t[2][0] == 'const' and isinstance(t[2][1], int):
+            t, k = t[1], t[2][1]
+        if t[0] != 'elem' or t[1][0] != 'call' or fn.cls is None:
+            return []
+        mc = method_call(t[1])
+        if mc is None or mc[0] != SELF:
+            return []
+        g = repo.find_method(fn.cls, mc[1])
+        if g is None or g.node.returns is None or not isinstance(g.node.returns, ast.Subscript):
+            return []
+        inner = g.node.returns.slice
+        if isinstance(inner, ast.Tuple) and ast.unparse(g.node.returns.value).endswith('Generator'):
+            inner = inner.elts[0]
+        if k is not None:
+            if not (isinstance(inner, ast.Subscript) and isinstance(inner.slice, ast.Tuple) and
+                    ast.unparse(inner.value).endswith('Tuple') and k < len(inner.slice.elts)):
+                return []
+            inner = inner.slice.elts[k]
+        if not isinstance(inner, (ast.Name, ast.Attribute)):
+            return []
+        q = repo.resolve_name(g.module, ast.unparse(inner))
+        q = repo.canonical(q) if q else None
+        if q in repo.classes:
+            return list(repo.subclasses(repo.classes[q]))
+        return []
 
     def attr_aliases(self, ci: ClassInfo, attr: str) -> List[FunctionInfo]:
         """Methods that ``self.<attr> = self.<method>`` stores put into a function-valued
